@@ -4,6 +4,7 @@ import (
 	"context"
 	"errors"
 	"fmt"
+	"math"
 	"net"
 	"net/http"
 	"net/http/httptest"
@@ -65,6 +66,8 @@ type API struct {
 	RetryNC       func(tok int) (int, error)                      `retry:"true"` // retry-tagged, no context parameter
 	Raw           func(ctx context.Context, p jsonrpc.RawParams) (int, error)
 	Sub           func(ctx context.Context, tok int, n int) (<-chan [2]int, error)
+	SubOnly       func(ctx context.Context, tok int, n int) <-chan [2]int           // a method whose only result is the channel
+	SubF          func(ctx context.Context, tok int, n int) (<-chan float64, error) // a stream with a value that cannot be encoded (NaN)
 	Big           func(ctx context.Context, tok int, size int) (string, error)
 	BigReq        func(ctx context.Context, tok int, pad string) (int, error)
 	Panic         func(ctx context.Context, tok int, kind string) (int, error)
@@ -498,19 +501,9 @@ func (h *H) Sub(ctx context.Context, tok int, n int) (<-chan [2]int, error) {
 	go func() {
 		defer w.handlerWG.Done()
 		defer func() { w.mu.Lock(); w.running[tok]--; w.mu.Unlock() }()
-		streamDone := make(chan struct{})
-		defer close(streamDone)
-		go func() {
-			select {
-			case <-ctx.Done():
-				select {
-				case <-streamDone:
-				default:
-					w.Rec.Emit("HandlerCtxDone", "call", tok)
-				}
-			case <-streamDone:
-			}
-		}()
+		// the producer reports the cancellation of its context at the point where it acts on it (while the stream is still its business)
+		var seenOnce sync.Once
+		ctxSeen := func() { seenOnce.Do(func() { w.Rec.Emit("HandlerCtxDone", "call", tok) }) }
 		last := n
 		if p.CloseEarly > 0 && p.CloseEarly < n {
 			last = p.CloseEarly
@@ -524,6 +517,7 @@ func (h *H) Sub(ctx context.Context, tok int, n int) (<-chan [2]int, error) {
 					close(out)
 					return
 				case <-ctx.Done():
+					ctxSeen()
 					close(out)
 					return
 				}
@@ -532,6 +526,7 @@ func (h *H) Sub(ctx context.Context, tok int, n int) (<-chan [2]int, error) {
 			select {
 			case out <- [2]int{tok, i}:
 			case <-ctx.Done():
+				ctxSeen()
 				close(out)
 				return
 			}
@@ -539,6 +534,7 @@ func (h *H) Sub(ctx context.Context, tok int, n int) (<-chan [2]int, error) {
 		if p.NoClose {
 			select {
 			case <-ctx.Done():
+				ctxSeen()
 			case <-p.release:
 				w.Rec.Emit("HandlerChanClose", "call", tok)
 			case <-time.After(patience(time.Duration(p.NoCloseMs+2000) * time.Millisecond)):
@@ -553,6 +549,36 @@ func (h *H) Sub(ctx context.Context, tok int, n int) (<-chan [2]int, error) {
 		close(out)
 	}()
 	leave("chan")
+	return out, nil
+}
+
+// SubOnly: the same stream through a method that returns nothing but the channel.
+func (h *H) SubOnly(ctx context.Context, tok int, n int) <-chan [2]int {
+	ch, _ := h.Sub(ctx, tok, n)
+	return ch
+}
+
+// SubF: n float values of which the second is NaN (not representable in JSON: it cannot be forwarded); then the handler closes.
+func (h *H) SubF(ctx context.Context, tok int, n int) (<-chan float64, error) {
+	out := make(chan float64)
+	h.w.handlerWG.Add(1)
+	go func() {
+		defer h.w.handlerWG.Done()
+		defer close(out)
+		for i := 1; i <= n; i++ {
+			v := float64(i)
+			if i == 2 {
+				v = math.NaN()
+			}
+			select {
+			case out <- v:
+			case <-ctx.Done():
+				return
+			case <-time.After(2 * time.Second):
+				return
+			}
+		}
+	}()
 	return out, nil
 }
 
@@ -869,7 +895,12 @@ func (c *Client) Subscribe(ctx context.Context, tok, n int, panicKind string) (<
 	w.Rec.Emit("CallStart", "call", tok, "cli", c.Name, "kind", "sub", "transport", transportOf(c))
 	var ch <-chan [2]int
 	var err error
-	if panicKind != "" {
+	if panicKind == "only" {
+		ch = c.API.SubOnly(ctx, tok, n)
+		if ch == nil {
+			err = errors.New("no channel returned")
+		}
+	} else if panicKind != "" {
 		ch, err = c.API.PanicSub(ctx, tok, panicKind)
 	} else {
 		ch, err = c.API.Sub(ctx, tok, n)
